@@ -94,11 +94,19 @@ ConfigBool == <<
 \* schema features added after the factor codes were fixed: appended at the END of BoolFactors, so that the
 \* codes of the older factors - and with them their values in every row - stay what they were
 SchemaLate == <<
-  "handInModel"   \* a type whose Go model is HAND-WRITTEN in the model output package: found through autobind
+  "handInModel",  \* a type whose Go model is HAND-WRITTEN in the model output package: found through autobind
                   \* (autobindModel) or bound by an explicit models: entry (otherwise)
+  "ifaceOrphan"   \* an interface NOTHING implements (declared ahead of its first implementor), and an interface
+                  \* implemented only by another interface that no object implements: no possible types
 >>
 
-BoolFactors == SchemaBool \o ConfigBool \o SchemaLate
+\* configuration choices added later (appended for the same reason)
+ConfigLate == <<
+  "schemaInExecDir" \* the schema files live INSIDE the exec output directory (graph/*.graphqls): with the
+                    \* follow-schema exec layout the sources are embedded (go:embed + sourceData()) instead of inlined
+>>
+
+BoolFactors == SchemaBool \o ConfigBool \o SchemaLate \o ConfigLate
 NB == Len(BoolFactors)
 
 \* Schema constructs that trigger KNOWN defects of the generator (open findings of C17, see
@@ -147,7 +155,7 @@ Default(f) == CASE f = "worker_limit"   -> 0
 
 \* factors that stay fixed along an evolution: changing them needs the user to delete
 \* files gqlgen does not own any more (generated.go vs *.generated.go, stub.go, ...)
-Held == {"execFollow", "resolver", "models", "stub"}
+Held == {"execFollow", "resolver", "models", "stub", "schemaInExecDir"}
 
 \* three-way (and higher) interactions are enumerated exhaustively for these
 CubeFactors == <<"use_function_syntax_for_execution_context", "execFollow", "dirType",
